@@ -384,7 +384,8 @@ def family_from_spec(s: dict):
 # --------------------------------------------------------------------------------------
 # concretiser: MsgStore history h -> concrete events (frames, symbolic ticks, reads)
 
-BUMPS = (3001, 3500, 4200, 7000, 31000)  # > 3 s apart: the 000A array-fragment merge is not C14's subject
+BUMPS = (3001, 3500, 4200, 7000, 31000)  # > 3 s apart, except where concretise() asks for a fragment merge
+FRAGMENT_CODES = ("000A",)
 
 
 def concretise(h: tuple, fam, rnd: random.Random) -> list[dict]:
@@ -397,8 +398,20 @@ def concretise(h: tuple, fam, rnd: random.Random) -> list[dict]:
             fr = fam.frame(k, form, pairs, rnd)
             if fr is None:
                 continue
+            dt = rnd.choice(BUMPS)
+            # a per-zone 000A hard on the heels of the array form (the controller's confirmation of a change): the
+            # library takes it for the tail of the array and merges the two (dispatcher.detect_array_fragment) -
+            # the zone's newest message is still this one
+            if (form != "A" and getattr(fam, "codes", {}).get(k) in FRAGMENT_CODES and out and out[-1]["k"] == "rx"
+                    and out[-1]["code"] == k and out[-1]["form"] == "A" and rnd.random() < 0.6):
+                for _ in range(8):
+                    if fr[:2] == " I":
+                        break
+                    fr = fam.frame(k, form, pairs, rnd)
+                if fr[:2] == " I":
+                    dt = rnd.choice((400, 1200, 2900))
             out.append({"k": "rx", "code": k, "form": form, "cs": [p[0] for p in pairs],
-                        "vs": [p[1] for p in pairs], "frame": fr, "dt": rnd.choice(BUMPS), "mt": mt})
+                        "vs": [p[1] for p in pairs], "frame": fr, "dt": dt, "mt": mt})
         elif kind == "other":
             out.append({"k": "other", "frame": fam.other(rnd), "dt": rnd.choice(BUMPS)})
         elif kind == "tick":
@@ -469,7 +482,7 @@ async def execute(fam, events: list[dict], *, final_reads: int = 2, verbose: boo
 
     def record(base: dict) -> None:
         ev = {"k": "", "code": 0, "form": "", "cs": [], "vs": [], "life": 0, "t": now, "c": 0, "a": 0,
-              "obs": 0, "slots": slots(), "exp": [exp_flag(m) for m in msgs]}
+              "obs": 0, "slots": slots(), "exp": [exp_flag(m) for m in msgs], "mcs": [], "mvs": []}
         ev.update(base)
         rec.append(ev)
         if verbose:
@@ -495,6 +508,7 @@ async def execute(fam, events: list[dict], *, final_reads: int = 2, verbose: boo
             print(f"  read ctx {c} .{name} -> {obs}")
         record({"k": "read", "c": c, "a": a, "obs": obs})
 
+    prev_rx: dict | None = None
     try:
         for e in events:
             if e["k"] in ("rx", "other"):
@@ -520,10 +534,21 @@ async def execute(fam, events: list[dict], *, final_reads: int = 2, verbose: boo
                         raise RuntimeError("harness: clock mismatch")
                     msgs.append(m)
                     t_of[e["mt"]] = len(msgs) - 1
+                    merged: dict[int, int] = {}
+                    if e["form"] != "A" and isinstance(m.payload, list):
+                        # the library merged this packet into the array before it (the implementation-shaped model
+                        # must know: the stored message then covers the array's zones too); the contract does not care
+                        if prev_rx is None or prev_rx["form"] != "A" or prev_rx["code"] != e["code"]:
+                            raise RuntimeError(f"harness: unexpected merge of {e['frame']}")
+                        merged = dict(zip(prev_rx.get("_mcs", prev_rx["cs"]), prev_rx.get("_mvs", prev_rx["vs"])))
+                        merged.update(zip(e["cs"], e["vs"]))
+                        e["_mcs"], e["_mvs"] = sorted(merged), [merged[c] for c in sorted(merged)]
                     record({"k": "rx", "code": e["code"], "form": e["form"], "cs": e["cs"], "vs": e["vs"],
-                            "life": life_ms(m)})
+                            "life": life_ms(m), "mcs": sorted(merged), "mvs": [merged[c] for c in sorted(merged)]})
+                    prev_rx = dict(e, form="A") if merged else e
                 else:
                     record({"k": "other"})
+                    prev_rx = None
             elif e["k"] == "tick":
                 i = t_of.get(e["ref"])
                 if i is None:
